@@ -23,7 +23,7 @@ RULE = ("Batch sequences as in C06/C07/C11 (empty batches, NaN, time index for d
         "streamz is compared with streamz, so this holds regardless of findings in C06/C07/C11. "
         "Non-trivial: a cut with 0 < k < last whose state is non-empty, with >= 1 non-empty "
         "batch on each side.")
-ASSUMPTIONS = ["resumed pipelines use the empty frame of the schema as example (a usage "
+ASSUMPTIONS = ["resumed rolling, ewm and time-indexed pipelines use the empty frame of the schema as example (a usage "
                "constraint of `example`, not part of C12)", "states are deep-copied at capture"]
 
 FAMS = ["red", "gb", "gbmean", "rolling", "window", "wgb", "expanding", "ewm"]
@@ -64,7 +64,14 @@ def case_strategy(draw, tier="quick"):
     else:
         op["com"] = draw(st.sampled_from([0.5, 1.0, 3.0]))
         op["agg"] = "mean"
+    if fam in ("window", "expanding") and op["agg"] in ("sum", "count", "mean", "var") and \
+            not op.get("derived") and draw(st.integers(0, 2)) == 0:
+        op["col"] = "xy"      # two columns: the state holds vectors (Series), not scalars
     return {"table": t, "cuts": cuts, "op": op}
+
+
+def _sel(frame, col):
+    return frame[["x", "y"]] if col == "xy" else frame[col]
 
 
 def build(sdf, op, start, first):
@@ -92,13 +99,13 @@ def build(sdf, op, start, first):
         elif d == "diff":
             w = w.x - w.y
         else:
-            w = w[col]
+            w = _sel(w, col)
         return w.size if a == "size" else getattr(w, a)()
     if f == "wgb":
         w = sdf.window(with_state=True, start=None if first else start, **op["window"])
         return getattr(w.groupby(key(w))[col], a)()
     if f == "expanding":
-        e = sdf.expanding(with_state=True, start=None if first else start)[col]
+        e = _sel(sdf.expanding(with_state=True, start=None if first else start), col)
         return e.size if a == "size" else getattr(e, a)()
     e = sdf.ewm(com=op["com"], with_state=True, start=None if first else start)[col]
     return e.mean()
@@ -155,7 +162,12 @@ def execute(case):
            [(k, "live") for k in range(len(bs) - 1)] + [(k, "live-again") for k in range(len(bs) - 1)]
     for k, how in plan:
         src2 = Stream()
-        sdf2 = DataFrame(src2, example=dc.example_frame(t, "empty"))
+        # the example frame only describes the schema: rows in it must not leak into a seeded state
+        # (not for rolling / time-indexed tables: there the example's own index labels must fit
+        # the seeded history, the usage constraint of ASSUMPTIONS)
+        rows_ok = op["fam"] not in ("rolling", "ewm") and "ts" not in t
+        sdf2 = DataFrame(src2, example=dc.example_frame(
+            t, "two" if rows_ok and (k + len(how)) % 2 else "empty"))
         try:
             seed_state = copy.deepcopy(states[k]) if how == "copy" else live_states[k]
             out2 = build(sdf2, op, seed_state, False).stream.sink_to_list()
